@@ -83,6 +83,10 @@ func (s *EncryptionSession) InitKeyClientStart() (kxKey []byte, kxType string, e
 // It already uses that information to finalize the encryption keys.
 // Call InitCleanup() when done with key setup.
 func (s *EncryptionSession) InitKeyServer(kxKey []byte, kxType string) (returnKxKey []byte, returnKxType string, err error) {
+	// Keys and sequence windows are replaced: wait for a frame that is being
+	// opened with the current keys, so that it is checked against its own window.
+	s.openLock.Lock()
+	defer s.openLock.Unlock()
 	s.lock.Lock()
 	defer s.lock.Unlock()
 
@@ -116,6 +120,8 @@ func (s *EncryptionSession) InitKeyServer(kxKey []byte, kxType string) (returnKx
 // InitKeyClientComplete takes the exchange key of the server to finalize the encryption keys.
 // Call InitCleanup() when done with key setup.
 func (s *EncryptionSession) InitKeyClientComplete(kxKey []byte, kxType string) error {
+	s.openLock.Lock()
+	defer s.openLock.Unlock()
 	s.lock.Lock()
 	defer s.lock.Unlock()
 
